@@ -431,6 +431,23 @@ def foreign_side(ctx, blobs):
                    'subj': sigs.subj_cert(blobs, kblob, fk.fingerprint.hex(), uid),
                    'signed_over': blobs.add(build.subject_octets(0x13, primary=fk.pub_body, uid=uid) + _region_trailer(next(b for t_, b, r in build.read_packets(kblob) if t_ == 2))),
                    'clause': 'C02.indep-signer', 'label': '%s whole foreign key verifies with itself' % kind, 'accepted': True, 'result': res})
+    # a foreign key whose self-certification carries a key expiration time of ZERO (RFC 4880 5.2.3.6: "if this is not present or has a value
+    # of zero, the key never expires") and, for comparison, one far in the future: documents signed by them verify
+    for label, secs in (('zero (never expires)', 0), ('one hundred years', 86400 * 36500)):
+        fk = build.ForeignKey('ed25519')
+        uid = b'Never Expires <ne@example.org>'
+        kblob = build.transferable_key(fk, [uid], extra_hashed=[build.subpacket(9, struct.pack('>I', secs))])
+        doc = b'signed by a key with a key expiration time of ' + label.encode()
+        pkt, hin = build.sig_packet(fk, 0x00, 'sha256', [], [], build.subject_octets(0x00, doc=doc), created=fk.created + 3600)
+        with warnings.catch_warnings():
+            warnings.simplefilter('ignore')
+            try:
+                pub = pgpy.PGPKey.from_blob(kblob)[0]
+                res = sigs.verify_outcome(pub, doc, sigs.parse_sig(pkt))
+            except Exception:
+                res = 'raised'
+        ev.append({'k': 'foreign', 'sig': blobs.add(pkt), 'subj': sigs.subj_doc(blobs, doc), 'signed_over': blobs.add(hin), 'clause': 'C02.indep-signer',
+                   'label': 'document signed by a foreign key whose key expiration time is %s' % label, 'accepted': True, 'result': res})
     return ev
 
 
